@@ -200,20 +200,29 @@ fn stream_parse(a: &snel_harness::out::Args) {
             // grammar-derived from a generated command value
             let c = if r.chance(1, 12) {
                 Command::Batch((0..1 + r.below(3)).map(|_| loop { let c = gens::simple_command(&mut r, 1); if !matches!(c, Command::ShowMaterialized { .. }) { break c; } }).collect())
-            } else if r.chance(1, 14) {
-                Command::RememberQuery { spec: MaterializedQuerySpec { name: r.pick(&["m1", "daily_orders", "X-9"]).to_string(), query: Box::new(gens::query(&mut r, 1)) } }
+            } else if r.chance(1, 7) {
+                // REMEMBER: half of them with characters whose case mapping changes the UTF-8 length before the AS
+                let q = if r.chance(1, 2) { s.tally("grammar:remember-caselen"); gens::query_caselen(&mut r) } else { gens::query(&mut r, 1) };
+                Command::RememberQuery { spec: MaterializedQuerySpec { name: r.pick(&["m1", "daily_orders", "X-9", "foo", "hot"]).to_string(), query: Box::new(q) } }
             } else {
                 gens::simple_command(&mut r, 2)
             };
             s.tally("kind:grammar");
             let mut st = Style::random(r.next());
+            let remember_text = |spec: &MaterializedQuerySpec, st: &mut Style| -> Option<String> {
+                // query::parse handles any whitespace; the ` AS ` search needs plain spaces around AS
+                let mut qs = Style { bits: Rng::new(st.bits.next()), vary: st.vary };
+                let q = print::print_command(&spec.query, &mut qs)?;
+                if !q.to_ascii_uppercase().starts_with("QUERY") || q.to_ascii_uppercase().contains(" AS ") { return None; }
+                Some(format!("{}{}{} {} {}", st.kw("REMEMBER"), st.sp(), q, st.kw("AS"), spec.name))
+            };
             let printed = match &c {
-                Command::RememberQuery { spec } => print::print_command(&spec.query, &mut Style::plain()).filter(|q| q.starts_with("QUERY") && !q.to_ascii_uppercase().contains(" AS ")).map(|q| format!("{}{}{} AS {}", st.kw("REMEMBER"), st.sp(), q, spec.name)),
+                Command::RememberQuery { spec } => remember_text(spec, &mut st),
                 _ => print::print_command(&c, &mut st),
             };
             match printed {
                 Some(t) => {
-                    alt_text = match &c { Command::RememberQuery { .. } => None, _ => print::print_command(&c, &mut Style::plain()) };
+                    alt_text = match &c { Command::RememberQuery { spec } => remember_text(spec, &mut Style::plain()), _ => print::print_command(&c, &mut Style::plain()) };
                     expected = Some(c);
                     t
                 }
